@@ -256,3 +256,14 @@ class Exec:
 
     def do_drop(self, s):
         del self.H[s["h"]]
+
+    def _mgr(self, name):
+        return {"no_autodiff": mg.no_autodiff, "mem_guard_off": mg.mem_guard_off, "mem_guard_on": mg.mem_guard_on}[name]
+
+    def do_enter(self, s):
+        if self.be == "mg":
+            self._mgr(s["m"]).__enter__()
+
+    def do_exit(self, s):
+        if self.be == "mg":
+            self._mgr(s["m"]).__exit__(None, None, None)
